@@ -3,7 +3,8 @@
 
 A listener takes clients from its backlog one after the other.  After taking a client the loop performs the awaits
 listed for it (regenerated from the source by `translate/acceptsites.py`) and then hands the client to a task of its
-own.  A `peer` await — one that waits for handshake progress of that client — never returns when the client stalls:
+own.  A `peer` await — one that waits for handshake progress of that client — or a blocking send into that client's session
+queue (`squeue`) never returns when the client (its session's consumer) stalls:
 the loop is stuck and nobody behind it is ever taken.  Any other await returns.
 -/
 namespace Redproxy.Accept
@@ -14,7 +15,9 @@ inductive Wait | source | peer | squeue | localWait
 /-- `true` = this client never sends what its handshake waits for -/
 abbrev Stalls := Bool
 
-def hasPeerWait (ws : List Wait) : Bool := ws.any (· == .peer)
+/-- a wait on one client's (or one session's upstream's) progress: a `peer` await, or a blocking send into that session's
+bounded queue -/
+def hasPeerWait (ws : List Wait) : Bool := ws.any (fun w => w == .peer || w == .squeue)
 
 /-- the (arrival-order) indices of the clients that are handed to a task of their own; `i` = index of the head -/
 def tasks (ws : List Wait) : List Stalls → Nat → List Nat
